@@ -161,7 +161,7 @@ func ruleR1(c *Ctx, id string) {
 			a.ok = false
 			a.why = fmt.Sprintf("success status although the last transaction %s is %s", last, ts.St)
 		case ts.Via == "CommitUnstable":
-			// owned by C07.U1 (unstable arm of WRITE)
+			// the level is owned by C07.U1 (unstable arm of WRITE), the tested result by C07.U7
 		case !ts.Sync:
 			a.ok = false
 			a.why = "success after an asynchronous commit"
